@@ -61,29 +61,35 @@ func verifByteOK(b byte) {
 // kinds: 0 = empty literal (only as the sole segment: "/"), 1 = one-byte literal, 2 = ":p", 3 = ":q"
 const verifK = 4
 
-func verifMkRoute(method string, kinds []int) (verifRoute, bool) {
-	r := verifRoute{method: method, allLit: true}
+// verifShapeOK: the kind tuples that are generated.  Parameter names are
+// interchangeable: a pattern's first parameter is ":p", ":q" only follows a
+// ":p" (sibling parameters of different names are H03a's business); the empty
+// literal only as the sole segment.
+func verifShapeOK(kinds []int) bool {
 	if kinds == nil {
-		return r, false
+		return false
 	}
-	// parameter names are interchangeable: a pattern's first parameter is ":p",
-	// ":q" only follows a ":p" (sibling parameters of different names are H03a's)
 	np, nq := 0, 0
 	for _, k := range kinds {
 		if k == 0 && len(kinds) > 1 {
-			return r, false
+			return false
 		}
 		if k == 2 {
 			np++
 		}
 		if k == 3 {
 			if np == 0 {
-				return r, false
+				return false
 			}
 			nq++
 		}
 	}
-	if np > 1 || nq > 1 {
+	return np <= 1 && nq <= 1
+}
+
+func verifMkRoute(method string, kinds []int) (verifRoute, bool) {
+	r := verifRoute{method: method, allLit: true}
+	if !verifShapeOK(kinds) {
 		return r, false
 	}
 	for _, k := range kinds {
@@ -185,22 +191,29 @@ var verifMethods = []string{http.MethodGet, http.MethodPost}
 func Verif_C03_router() {
 	R, S := verifParam("R"), verifParam("S")
 	nShapes := verifNumShapes(S)
-	nIdx := 2 * nShapes // (method, shape)
+	// the generated (method, shape) pairs, in a fixed order
+	var valid []int
+	for idx := 0; idx < 2*nShapes; idx++ {
+		if verifShapeOK(verifDecodeShape(idx%nShapes, S)) {
+			valid = append(valid, idx)
+		}
+	}
 	nc := verifParam("nc")
-	c := verifCase(nc)
-	if c >= nIdx {
+	c := verifCase(nc) // fan-out: worker c takes valid[c], valid[c+nc], ... for route 0
+	if c >= len(valid) {
 		return
 	}
-	c += nc * verifChoose("route0", (nIdx-c+nc-1)/nc)
+	c += nc * verifChoose("route0", (len(valid)-c+nc-1)/nc)
 
 	routes := make([]verifRoute, 0, R)
 	last := 0
 	for i := 0; i < R; i++ {
-		idx := c
+		v := c
 		if i > 0 { // a table is a set: routes 1.. in non-decreasing (method, shape) order
-			idx = last + verifChoose("route", nIdx-last)
-			last = idx
+			v = last + verifChoose("route", len(valid)-last)
+			last = v
 		}
+		idx := valid[v]
 		rt, ok := verifMkRoute(verifMethods[idx/nShapes], verifDecodeShape(idx%nShapes, S))
 		if !ok {
 			return
